@@ -453,13 +453,15 @@ fn alias_axis_query(out: &mut JobOut) {
 }
 
 fn body(ctx: &Ctx) -> (Summary, Meta) {
-    let quick = ctx.quick();
+    // the former thorough bounds cost 3 s: they are the quick tier now; thorough goes further
+    let quick = false;
+    let deep = !ctx.quick();
     let mut jobs = vec![];
     for f32 in [false, true] {
         let e = if f32 { f32::EPSILON as f64 } else { f64::EPSILON };
         let vs = vec![-1048576.0, -7.0, -1.0, 0.0, 2.0f64.powi(-10), 1.0, 1.0 + e, 1.0 + 2.0 * e, 1.5, 7.0];
-        let mut axes = alpha::subsets_axes(&vs, "v", 2, if quick { 3 } else { 6 });
-        axes.extend(alpha::full_word_axes(&alpha::h3(), "w", 3, if quick { 4 } else { 7 }, &[0.0, -3.0, 1.25]));
+        let mut axes = alpha::subsets_axes(&vs, "v", 2, if deep { 8 } else { 6 });
+        axes.extend(alpha::full_word_axes(&alpha::h3(), "w", 3, if deep { 8 } else { 7 }, &[0.0, -3.0, 1.25]));
         axes.extend(alpha::long_word_axes(&alpha::h4(), "L", &[8, 40], 1, &[1.25]));
         for a in &axes {
             jobs.push(Job { ax: a.clone(), ay: None, f32 });
